@@ -63,6 +63,23 @@ pub fn run(tier: Tier) -> i32 {
             extra.push(c05::Input { label: format!("{} + a copy at distance {} (dictionary 4096, {} bytes produced)", it.name, d, e.expect.len() - 6), bytes, opts: crate::cases::Opts::default(), max_sym: 0 });
         }
     }
+    // payloads of 0..2 bytes whose size is provided / announced, followed by a few other bytes: the size is reached inside
+    // whatever the decoder buffered together with the header
+    for n in 0..3usize {
+        use crate::refmodel::enc::{self, Sym};
+        let prog: Vec<Sym> = (0..n).map(|i| Sym::L(0x41 + i as u8)).collect();
+        let e = enc::encode(3, 0, 2, u64::MAX, &prog);
+        for tr in [vec![0u8], vec![0xFF; 2], vec![0u8; 5], vec![0x5D, 0, 0, 0x10, 0, 1, 2, 3], vec![7u8; 14]] {
+            let mut x5 = enc::lzma_header(3, 0, 2, 4096, None);
+            x5.truncate(5);
+            x5.extend_from_slice(&e.payload);
+            x5.extend_from_slice(&tr);
+            extra.push(c05::Input { label: format!("{}-byte payload, size provided (5-byte header), {} further byte(s)", n, tr.len()), bytes: x5, opts: crate::cases::Opts { size: SizeOpt::Provided(Some(n as u64)), ..crate::cases::Opts::default() }, max_sym: 0 });
+            let mut x13 = enc::lzma_file(3, 0, 2, 4096, Some(n as u64), &e.payload);
+            x13.extend_from_slice(&tr);
+            extra.push(c05::Input { label: format!("{}-byte payload, size in header, {} further byte(s)", n, tr.len()), bytes: x13, opts: crate::cases::Opts::default(), max_sym: 0 });
+        }
+    }
     let mut k = 0usize;
     for i in all.iter().filter(|i| i.label.contains(" byte ")) {
         k += 1;
